@@ -92,3 +92,42 @@ def crash_residues(base_scn, deviations=True, limit=40):
             if len(out) >= limit:
                 return out
     return out
+
+
+# worker kinds x reuse scopes x slot bindings: the configuration dimension every traversal property quantifies over
+# (scopes without "own" are the pool-update mode of the manual tools - saving requires the local state to exist already - not a way to run tests)
+LXC_SCOPES = ("own", "own shared", "own swarm shared", "own cluster shared", "own swarm cluster")
+REMOTE_SCOPES = ("own shared", "own swarm shared", "own cluster shared", "own swarm cluster")
+SLOTS = (("net1 net2", "5 "), ("net1 net2", "5 7"), ("net1 net2", "gw1.lan/1 gw1.lan/2"), ("cluster1.net6 net2", "5 7"),
+         ("cluster1.net6 cluster1.net7", "c1.lan/1 c1.lan/2"), ("net1 net2 net3", "5 7"))
+
+
+def config_matrix(make, tier, k_quick=1, k_thorough=2, weight=0.3, extra_params=None, skip=()):
+    """Plan entries running `make(nets, params=..., ...)` under every worker-kind / pool-scope / slot configuration.
+
+    skip: tags already covered by the caller's own entries."""
+    q = tier == "quick"
+    k = k_quick if q else k_thorough
+    out = []
+
+    def add(nets, params, tag):
+        if tag in skip:
+            return
+        pr = dict(extra_params or {})
+        pr.update(params)
+        out.append((make(nets, params=pr).variant("/cfg:" + tag), k, weight))
+
+    for scope in LXC_SCOPES:
+        add("net1 net2", {"pool_scope": scope}, "lxc,scope=" + scope.replace(" ", "+"))
+    for scope in REMOTE_SCOPES:
+        add("cluster1.net6 cluster1.net7 cluster2.net6", {"pool_scope": scope}, "remote,scope=" + scope.replace(" ", "+"))
+    add("cluster1.net6 net2", {}, "remote+lxc")
+    add("cluster1.net6 net2", {"pool_scope": "own shared"}, "remote+lxc,scope=own+shared")
+    add("cluster1.net6 net2", {"pool_scope": "own swarm shared"}, "remote+lxc,scope=own+swarm+shared")
+    add("net2 cluster1.net6", {"pool_scope": "own swarm shared"}, "lxc+remote,scope=own+swarm+shared")
+    add("net0 net1", {}, "serial+lxc")
+    for nets, slots in SLOTS:
+        add(nets, {"slots": slots}, f"slots={slots!r}@{nets.replace(' ', '+')}")
+        if not q or slots in ("5 ", "gw1.lan/1 gw1.lan/2"):
+            add(nets, {"slots": slots, "pool_scope": "own shared"}, f"slots={slots!r}@{nets.replace(' ', '+')},scope=own+shared")
+    return out
